@@ -812,3 +812,32 @@ def deep_folded_case(rng):
     case = simple_case(fields, consts=consts, decls=decls)
     case["named"] = {}
     return case
+
+
+def runtime_placed_units_case(rng):
+    """A structure whose bit-field storage units are placed at run time: a variable-size member first, then runs of
+    bit-fields -- with storage types whose size is not their alignment (int24 / int48) among them -- in which a unit is
+    filled exactly and followed by another unit of the same type, then ordinary members.  (Hand-built.)"""
+    fields = [F("n", N_int("uint8"), len_src=True), F("d", N_array(N_char(), L_expr("n & 3")))]
+    k = 0
+    for run in range(rng.randint(1, 3)):
+        st = rng.choice(["uint24", "int24", "uint48", "int48", "uint16", "uint32", "uint8"])
+        total = ALL_INTS[st][0] * 8
+        for unit in range(rng.randint(1, 3)):
+            left = total
+            exact = rng.random() < 0.7
+            while left:
+                w = left if exact and rng.random() < 0.5 else rng.randint(1, left)
+                if not exact and w == left and left > 1:
+                    w = left - 1
+                fields.append(F(f"b{k}", N_int(st), bits=w))
+                k += 1
+                left -= w
+                if not exact and rng.random() < 0.5:
+                    break
+        if rng.random() < 0.5:
+            fields.append(F(f"m{run}", N_int(rng.choice(["uint8", "uint16", "uint32"]))))
+    fields.append(F("tail", N_int("uint8")))
+    case = simple_case(fields)
+    case["named"] = {}
+    return case
